@@ -2365,6 +2365,23 @@ evhttp_get_body_length(struct evhttp_request *req)
 	return (0);
 }
 
+/* Return true iff the last transfer coding named in a Transfer-Encoding field
+ * value is "chunked" (RFC 9112 6.1/6.3). */
+static int
+evhttp_final_coding_is_chunked(const char *xfer_enc)
+{
+	const char *last = strrchr(xfer_enc, ',');
+	size_t len;
+
+	last = last ? last + 1 : xfer_enc;
+	while (*last == ' ' || *last == '\t')
+		++last;
+	len = strlen(last);
+	while (len > 0 && (last[len - 1] == ' ' || last[len - 1] == '\t'))
+		--len;
+	return len == 7 && evutil_ascii_strncasecmp(last, "chunked", 7) == 0;
+}
+
 static int
 evhttp_method_may_have_body_(struct evhttp_connection *evcon, enum evhttp_cmd_type type)
 {
@@ -2387,8 +2404,17 @@ evhttp_get_body(struct evhttp_connection *evcon, struct evhttp_request *req)
 	}
 	evcon->state = EVCON_READING_BODY;
 	xfer_enc = evhttp_find_header(req->input_headers, "Transfer-Encoding");
-	if (xfer_enc != NULL && evutil_ascii_strcasecmp(xfer_enc, "chunked") == 0) {
+	if (xfer_enc != NULL && evhttp_final_coding_is_chunked(xfer_enc)) {
 		req->chunked = 1;
+		req->ntoread = -1;
+	} else if (xfer_enc != NULL && req->kind == EVHTTP_REQUEST) {
+		/* RFC 9112 6.1: a request whose final transfer coding is not
+		 * chunked cannot be framed; never guess from Content-Length. */
+		evhttp_connection_fail_(evcon, EVREQ_HTTP_INVALID_HEADER);
+		return;
+	} else if (xfer_enc != NULL) {
+		/* RFC 9112 6.3: such a response is delimited by the close of
+		 * the connection, whatever Content-Length says. */
 		req->ntoread = -1;
 	} else {
 		if (evhttp_get_body_length(req) == -1) {
